@@ -120,7 +120,7 @@ Lemma get_leaf_means_inv t sf fs m : get_leaf_means A mean t sf fs = ROk m ->
     opt_all (map (leaf_mean_row A mean cs) (m_cells m)) = Some (m_data m) /\
     nodes (leaf_level t) <> [] /\
     Forall (fun r => length r = length (sf_cols sf)) (m_data m) /\ NoDup (sf_cols sf) /\
-    sf_basic sf = true /\ (fs = true -> sf_sel sf = true).
+    sf_basic sf = true /\ (fs = true -> sf_sel sf = true) /\ NoDup (m_cells m).
 Proof.
   unfold get_leaf_means.
   destruct (sf_basic sf) eqn:Eb; cbn [negb]; [|discriminate].
@@ -133,7 +133,8 @@ Proof.
   exists cs. split; [reflexivity|]. split; [exact Ea|]. split; [reflexivity|]. split; [reflexivity|].
   split; [reflexivity|]. split; [exact Eo|]. split.
   - intros E0. rewrite E0 in En. discriminate.
-  - split; [exact F|]. split; [exact G|]. split; [reflexivity|]. intros ->. destruct (sf_sel sf); [reflexivity | discriminate].
+  - split; [exact F|]. split; [exact G|]. split; [reflexivity|]. split; [|exact C].
+    intros ->. destruct (sf_sel sf); [reflexivity | discriminate].
 Qed.
 
 (* (1a) the mean of leaf L at gene G is sum(L,G) / max(1, n(L)), both read by name from the file *)
@@ -143,7 +144,7 @@ Theorem leaf_means_by_name t sf fs m : get_leaf_means A mean t sf fs = ROk m ->
   forall c g, In c (nodes (leaf_level t)) ->
     mat_at A m c g = option_map (fun sn => mean (fst sn) (Z.max 1 (snd sn))) (sf_at sf c g).
 Proof.
-  intros H. destruct (get_leaf_means_inv t sf fs m H) as (cs & Er & _ & Ec & Eg & En & Eo & _ & _ & ND & _).
+  intros H. destruct (get_leaf_means_inv t sf fs m H) as (cs & Er & _ & Ec & Eg & En & Eo & _ & _ & ND & _ & _ & _).
   split; [exact Ec|]. split; [exact Eg|]. split; [exact En|].
   pose proof (opt_all_Forall2 _ _ _ Eo) as F2. split; [symmetry; apply (Forall2_length _ _ _ F2)|].
   intros c g Hc.
@@ -412,3 +413,193 @@ Proof.
 Qed.
 
 End Rows.
+
+(* ------------------------------------------------------------------ (1b) independence of the row and column order *)
+Lemma index_nat_spec x l i : index_nat x l = Some i -> nth_error l i = Some x.
+Proof.
+  revert i. induction l as [|h t IH]; intros i H; cbn in H; [discriminate|].
+  destruct (Nat.eqb x h) eqn:E.
+  - injection H as <-. apply Nat.eqb_eq in E. subst. reflexivity.
+  - destruct (index_nat x t) as [k|]; [|discriminate]. injection H as <-. cbn. apply IH. reflexivity.
+Qed.
+Lemma index_nat_in x l : In x l -> exists i, index_nat x l = Some i.
+Proof.
+  induction l as [|h t IH]; intros H; [destruct H|]. cbn. destruct (Nat.eqb x h) eqn:E; [eauto|].
+  destruct H as [->|H]; [rewrite Nat.eqb_refl in E; discriminate|]. destruct (IH H) as [i Hi]. rewrite Hi. cbn. eauto.
+Qed.
+
+Lemma rpick_nth {X} (d : X) p l i k : nth_error p i = Some k -> nth_error (RefSide.pick d p l) i = Some (nth k l d).
+Proof. intros H. unfold RefSide.pick. rewrite nth_error_map, H. reflexivity. Qed.
+Lemma rpick_length {X} (d : X) p l : length (RefSide.pick d p l) = length p.
+Proof. apply map_length. Qed.
+
+Lemma perm_seq_facts p n : Permutation p (seq 0 n) ->
+  length p = n /\ NoDup p /\ forall k, In k p <-> (k < n)%nat.
+Proof.
+  intros H. split; [rewrite (Permutation_length H); apply seq_length|].
+  split; [apply (Permutation_NoDup (Permutation_sym H)), seq_NoDup|].
+  intros k. split; intros Hk.
+  - apply (Permutation_in _ H) in Hk. apply in_seq in Hk. lia.
+  - apply (Permutation_in _ (Permutation_sym H)). apply in_seq. lia.
+Qed.
+
+Lemma py_index_nat {X} (l : list X) i d : (i < length l)%nat -> py_index l (Z.of_nat i) = Some (nth i l d).
+Proof.
+  intros H. unfold py_index.
+  replace ((0 <=? Z.of_nat i) && (Z.of_nat i <? Z.of_nat (length l))) with true.
+  - rewrite Nat2Z.id. apply nth_error_nth'. exact H.
+  - symmetry. apply andb_true_iff. split; [apply Z.leb_le; lia | apply Z.ltb_lt; lia].
+Qed.
+
+Lemma zassoc_map_snd {X Y} (f : X -> Y) c (l : list (Z * X)) :
+  zassoc c (map (fun kv => (fst kv, f (snd kv))) l) = option_map f (zassoc c l).
+Proof. induction l as [|[k v] t IH]; cbn; [reflexivity|]. destruct (c =? k); [reflexivity | exact IH]. Qed.
+
+Lemma rpick_nodup p (cols : list Z) : NoDup cols -> Permutation p (seq 0 (length cols)) -> NoDup (RefSide.pick 0 p cols).
+Proof.
+  intros ND HP. destruct (perm_seq_facts _ _ HP) as (_ & NDp & Hin). unfold RefSide.pick.
+  apply NoDup_map_in_inj; [exact NDp|]. intros x y Hx Hy E.
+  apply (proj1 (NoDup_nth cols 0) ND); [apply Hin; exact Hx | apply Hin; exact Hy | exact E].
+Qed.
+
+Lemma rpick_in p (cols : list Z) g : Permutation p (seq 0 (length cols)) -> (In g (RefSide.pick 0 p cols) <-> In g cols).
+Proof.
+  intros HP. destruct (perm_seq_facts _ _ HP) as (_ & _ & Hin). unfold RefSide.pick. rewrite in_map_iff. split.
+  - intros (k & <- & Hk). apply nth_In, Hin, Hk.
+  - intros Hg. destruct (In_nth _ _ 0 Hg) as (k & Hk & E). exists k. split; [exact E | apply Hin; exact Hk].
+Qed.
+
+(* the row of cluster c, before and after *)
+Lemma raw_entry_rearrange rp cp sf idx : sf_wf sf ->
+  Permutation rp (seq 0 (length (sf_n sf))) -> 0 <= idx < Z.of_nat (length (sf_n sf)) ->
+  exists n s, raw_entry sf idx = Some (n, s) /\ length s = length (sf_cols sf) /\
+              raw_entry (rearrange rp cp sf) (move_row rp idx) = Some (n, RefSide.pick 0 cp s).
+Proof.
+  intros (Wl & Wr & _ & _) HP Hidx. destruct (perm_seq_facts _ _ HP) as (Lp & _ & Hin).
+  set (k := Z.to_nat idx). assert (Hk : (k < length (sf_n sf))%nat) by (unfold k; lia).
+  destruct (index_nat_in k rp (proj2 (Hin k) Hk)) as [i Hi]. pose proof (index_nat_spec _ _ _ Hi) as Hnth.
+  assert (Hil : (i < length rp)%nat) by (apply nth_error_Some; rewrite Hnth; discriminate).
+  exists (nth k (sf_n sf) 0), (nth k (sf_sum sf) []).
+  assert (E1 : raw_entry sf idx = Some (nth k (sf_n sf) 0, nth k (sf_sum sf) [])).
+  { unfold raw_entry. replace idx with (Z.of_nat k) by (unfold k; lia).
+    rewrite (py_index_nat (sf_n sf) k 0 Hk), (py_index_nat (sf_sum sf) k []) by lia. reflexivity. }
+  split; [exact E1|]. split.
+  - rewrite Forall_forall in Wr. apply Wr. apply nth_In. lia.
+  - unfold move_row. fold k. rewrite Hi. unfold raw_entry, rearrange. cbn [sf_n sf_sum].
+    rewrite (py_index_nat (RefSide.pick 0 rp (sf_n sf)) i 0) by (rewrite rpick_length; exact Hil).
+    rewrite (py_index_nat (map (RefSide.pick 0 cp) (RefSide.pick [] rp (sf_sum sf))) i [])
+      by (rewrite map_length, rpick_length; exact Hil).
+    rewrite (nth_error_nth _ _ _ (rpick_nth 0 rp (sf_n sf) i k Hnth)).
+    assert (E2 : nth_error (map (RefSide.pick 0 cp) (RefSide.pick [] rp (sf_sum sf))) i = Some (RefSide.pick 0 cp (nth k (sf_sum sf) []))).
+    { rewrite nth_error_map, (rpick_nth [] rp (sf_sum sf) i k Hnth). reflexivity. }
+    rewrite (nth_error_nth _ _ _ E2). reflexivity.
+Qed.
+
+Theorem sf_at_rearrange rp cp sf : sf_wf sf -> NoDup (sf_cols sf) ->
+  Permutation rp (seq 0 (length (sf_n sf))) -> Permutation cp (seq 0 (length (sf_cols sf))) ->
+  forall c g, sf_at (rearrange rp cp sf) c g = sf_at sf c g.
+Proof.
+  intros Wf ND HR HC c g. pose proof Wf as (_ & _ & _ & Wi). unfold sf_at.
+  cbn [rearrange sf_c2r]. rewrite (zassoc_map_snd (move_row rp) c (sf_c2r sf)).
+  destruct (zassoc c (sf_c2r sf)) as [idx|] eqn:Ez; cbn [option_map]; [|reflexivity].
+  assert (Hidx : 0 <= idx < Z.of_nat (length (sf_n sf))).
+  { apply zassoc_in in Ez. rewrite Forall_forall in Wi. apply (Wi (c, idx) Ez). }
+  destruct (raw_entry_rearrange rp cp sf idx Wf HR Hidx) as (n & s & E1 & Ls & E2).
+  rewrite E1, E2. destruct (perm_seq_facts _ _ HC) as (Lc & _ & Hin).
+  change (sf_cols (rearrange rp cp sf)) with (RefSide.pick 0 cp (sf_cols sf)).
+  destruct (gene_to_col (sf_cols sf) g) as [j|] eqn:Eg.
+  - destruct (gene_to_col_spec _ _ _ Eg) as [Hj Hnth].
+    destruct (In_nth_error _ _ (proj2 (Hin j) Hj)) as [j' Hj'].
+    assert (E3 : nth_error (RefSide.pick 0 cp (sf_cols sf)) j' = Some g).
+    { rewrite (rpick_nth 0 cp (sf_cols sf) j' j Hj'). f_equal. apply nth_error_nth. exact Hnth. }
+    rewrite (gene_to_col_nodup _ _ _ (rpick_nodup cp _ ND HC) E3).
+    rewrite (rpick_nth 0 cp s j' j Hj'). rewrite (nth_error_nth' s 0) by lia. reflexivity.
+  - replace (gene_to_col (RefSide.pick 0 cp (sf_cols sf)) g) with (@None nat); [reflexivity|].
+    symmetry. apply gene_to_col_none. rewrite (rpick_in cp _ g HC). apply gene_to_col_none. exact Eg.
+Qed.
+
+Lemma map_nth_seq0 {X} (l : list X) d : map (fun i => nth i l d) (seq 0 (length l)) = l.
+Proof.
+  induction l as [|x t IH]; [reflexivity|]. cbn [length seq map nth]. f_equal.
+  rewrite <- seq_shift, map_map. exact IH.
+Qed.
+
+Section Rearranged.
+Variable A : Type.
+Variable mean : Z -> Z -> A.
+
+Lemma raw_stats_rearrange rp cp sf : sf_wf sf -> Permutation rp (seq 0 (length (sf_n sf))) ->
+  forall c2r cs, Forall (fun kv => 0 <= snd kv < Z.of_nat (length (sf_n sf))) c2r ->
+    raw_stats sf c2r = Some cs ->
+    raw_stats (rearrange rp cp sf) (map (fun kv => (fst kv, move_row rp (snd kv))) c2r) =
+    Some (map (fun ke => (fst ke, (fst (snd ke), RefSide.pick 0 cp (snd (snd ke))))) cs).
+Proof.
+  intros Wf HR. induction c2r as [|[k idx] r IH]; intros cs F H; cbn in H.
+  - injection H as <-. reflexivity.
+  - inversion F as [|? ? Hidx F']; subst. cbn [snd] in Hidx.
+    destruct (raw_entry_rearrange rp cp sf idx Wf HR Hidx) as (n & s & E1 & _ & E2).
+    rewrite E1 in H. destruct (raw_stats sf r) as [rest|] eqn:Er; [|discriminate]. injection H as <-.
+    cbn [map raw_stats fst snd]. rewrite E2, (IH rest F' eq_refl). reflexivity.
+Qed.
+
+Lemma agg_all_keys cs cs' pops : (forall l, is_some (zassoc l cs') = is_some (zassoc l cs)) ->
+  agg_all cs' pops = agg_all cs pops.
+Proof.
+  intros H. induction pops as [|p r IH]; [reflexivity|]. cbn. rewrite IH.
+  replace (agg_check cs' p) with (agg_check cs p); [reflexivity|].
+  unfold agg_check. destruct p as [|x p]; [reflexivity|].
+  replace (forallb (fun l => is_some (zassoc l cs')) (x :: p)) with (forallb (fun l => is_some (zassoc l cs)) (x :: p));
+    [reflexivity|]. generalize (x :: p). intros q. induction q as [|y q IHq]; [reflexivity|].
+  cbn. rewrite IHq, H. reflexivity.
+Qed.
+
+(* (1) a statistics file and its row/column rearrangement are accepted alike and give the same leaf means BY NAME *)
+Theorem leaf_means_order_independent rp cp t sf fs m : sf_wf sf ->
+  Permutation rp (seq 0 (length (sf_n sf))) -> Permutation cp (seq 0 (length (sf_cols sf))) ->
+  get_leaf_means A mean t sf fs = ROk m ->
+  exists m', get_leaf_means A mean t (rearrange rp cp sf) fs = ROk m' /\
+    m_cells m' = m_cells m /\ Permutation (m_genes m') (m_genes m) /\
+    forall c g, In c (nodes (leaf_level t)) ->
+      mat_at A m' c g = mat_at A m c g /\
+      mat_at A m c g = option_map (fun sn => mean (fst sn) (Z.max 1 (snd sn))) (sf_at sf c g).
+Proof.
+  intros Wf HR HC H.
+  destruct (get_leaf_means_inv A mean t sf fs m H) as (cs & Er & Ea & Ec & Eg & En & Eo & NE & Fl & ND & Eb & Es & NDc).
+  pose proof Wf as (_ & _ & _ & Wi).
+  pose proof (raw_stats_rearrange rp cp sf Wf HR _ cs Wi Er) as Er'.
+  set (cs' := map (fun ke => (fst ke, (fst (snd ke), RefSide.pick 0 cp (snd (snd ke))))) cs) in *.
+  assert (Hz : forall l, zassoc l cs' = option_map (fun e => (fst e, RefSide.pick 0 cp (snd e))) (zassoc l cs)).
+  { intros l. unfold cs'. apply (zassoc_map_snd (fun e => (fst e, RefSide.pick 0 cp (snd e)))). }
+  destruct (perm_seq_facts _ _ HC) as (Lc & _ & _).
+  assert (Hrows : exists data', opt_all (map (leaf_mean_row A mean cs') (m_cells m)) = Some data' /\
+                                Forall (fun r => length r = length cp) data').
+  { apply opt_all_Forall2 in Eo. clear - Eo Hz. induction Eo as [|l row ls d Hl _ (data' & E' & F')].
+    - exists []. split; [reflexivity | constructor].
+    - unfold leaf_mean_row in Hl. destruct (zassoc l cs) as [[n s]|] eqn:Ez; [|discriminate].
+      exists (map (fun x => mean x (Z.max 1 n)) (RefSide.pick 0 cp s) :: data'). split.
+      + cbn. unfold leaf_mean_row at 1. rewrite Hz, Ez. cbn. rewrite E'. reflexivity.
+      + constructor; [rewrite map_length; apply rpick_length | exact F']. }
+  destruct Hrows as (data' & Eo' & Fl').
+  assert (Hm' : get_leaf_means A mean t (rearrange rp cp sf) fs =
+                ROk (mk_rmat (m_cells m) (RefSide.pick 0 cp (sf_cols sf)) data' Log2CPM)).
+  { unfold get_leaf_means. cbn [rearrange sf_basic sf_sel sf_c2r sf_cols]. rewrite Eb. cbn [negb].
+    replace (fs && negb (sf_sel sf)) with false by (destruct fs; [rewrite (Es eq_refl)|]; reflexivity).
+    fold (rearrange rp cp sf). rewrite Er'.
+    rewrite (agg_all_keys cs cs') by (intros l; rewrite Hz; destruct (zassoc l cs); reflexivity).
+    rewrite Ea. cbn [rbind]. rewrite <- Ec, Eo'.
+    assert (Hnn : is_nil (m_cells m) = false).
+    { destruct (m_cells m) as [|x0 r0] eqn:E0; [|reflexivity]. exfalso. apply NE.
+      apply Permutation_nil. pose proof (zsort_perm (nodes (leaf_level t))) as HP0. rewrite <- Ec in HP0. exact HP0. }
+    rewrite Hnn.
+    apply make_rmat_ok; [|apply rpick_nodup; assumption | exact NDc].
+    eapply Forall_impl; [|exact Fl']. intros r Hr. cbn beta in Hr. rewrite Hr, rpick_length. reflexivity. }
+  eexists. split; [exact Hm'|]. cbn [m_cells m_genes]. split; [reflexivity|]. split.
+  - rewrite Eg. unfold RefSide.pick.
+    eapply Permutation_trans; [apply Permutation_map; exact HC|]. rewrite map_nth_seq0. reflexivity.
+  - intros c g Hc.
+    destruct (leaf_means_by_name A mean t sf fs m H) as (_ & _ & _ & _ & B1).
+    destruct (leaf_means_by_name A mean t _ fs _ Hm') as (_ & _ & _ & _ & B2).
+    rewrite (B2 c g Hc), (B1 c g Hc), (sf_at_rearrange rp cp sf Wf ND HR HC). split; reflexivity.
+Qed.
+
+End Rearranged.
